@@ -270,6 +270,7 @@ func (w *verifWorld) check(s *Server, wb *verifWriteBack) {
 }
 
 func verifHistory(outages bool, twoNamespaces bool, ops []int, steps int) {
+	verif.Option("panic_is_violation", 1) // a panic must never end a path silently
 	w := &verifWorld{root: filepath.Join(verif.TempDir(), "c31"), outages: outages, owns: true}
 	s, wb := w.boot()
 	name := verifBlobDigest().Hex()
@@ -345,6 +346,7 @@ func VerifFindingWriteBackTwoNamespaces() {
 // (conflict handling), of a write-back execution or of a forced cleanup. After
 // the restart the acknowledged blob is still in the backend or safely pending.
 func VerifWriteBackCrash() {
+	verif.Option("panic_is_violation", 1) // a panic must never end a path silently
 	w := &verifWorld{root: filepath.Join(verif.TempDir(), "c31"), outages: false, owns: true}
 	s, wb := w.boot()
 	name := verifBlobDigest().Hex()
